@@ -47,12 +47,16 @@ func main() {
 	kit.Main(kit.World{Name: "fsworld", Run: run, Enum: enumerate})
 }
 
-var sizes = []int{0, 1, 4095, 32768, 32769, 65536, 100000, 1 << 20, sparseSize, 5<<20 + 3}
+var sizes = []int{0, 1, 4095, 32768, 32769, 65536, 100000, 1 << 20, sparseSize, zeroTailSize, 5<<20 + 3}
+
+// zeroTailSize: four copy blocks, the last two all zeros (a preallocated or
+// zero-padded file: what a hole-skipping copy would leave short)
+const zeroTailSize = 131072
 
 // nEnumSizes: the sizes whose scenarios and single-fault placements are
 // enumerated; the remaining one ("several MiB": about a hundred copy blocks)
 // is only drawn by the seeded part
-const nEnumSizes = 9
+const nEnumSizes = 10
 
 // sparseSize: a source of three copy blocks whose middle block is all zeros
 // (what a sparse-aware copy would skip)
@@ -95,6 +99,11 @@ func content(n int, salt byte) []byte {
 	defer func() {
 		if n == sparseSize && salt == 1 {
 			for i := 32768; i < 65536; i++ {
+				b[i] = 0
+			}
+		}
+		if n == zeroTailSize && salt == 1 {
+			for i := 65536; i < n; i++ {
 				b[i] = 0
 			}
 		}
